@@ -63,7 +63,10 @@ func scIsolation(r *Run) {
 	}
 	r.SetCfg("faultfree", faultFree)
 	r.SetCfg("net", fmt.Sprintf("%+v", *c))
-	mp := NewMuxPair(r, n, 0)
+	mp := NewPairMaybeStack(r, n, 8, "C09")
+	if mp == nil {
+		return
+	}
 	if r.Intn("cfg", 3) == 0 { // concurrent Create/Accept/reap under schedule perturbation
 		r.ArmYields([]string{"tubes.(*Muxer)"}, 1+r.Intn("cfg", 5), 1+r.Intn("cfg", 25), []float64{0.2, 1}[r.Intn("cfg", 2)])
 		r.YieldsOn(true)
